@@ -59,7 +59,7 @@ Theorem lru_evicts_lru a :
     live = victim :: rest /\
     l_items (fst (lru_call key keqb f mx valid s a)) = rest ++ [(key a, (l_now s, f a (l_calls s)))] /\
     Forall (fun e => last_use key keqb (fst victim) tr < last_use key keqb (fst e) tr) rest.
-Proof. eapply lru_eviction. exact reach_inv. Qed.
+Proof. eapply lru_eviction; [exact keqb_spec|exact reach_inv]. Qed.
 
 Theorem lru_recently_used_hits a p :
   last_miss_for key keqb (key a) (rev tr) = Some p -> fresh valid (l_now s) (o_now p) = true ->
